@@ -18,6 +18,7 @@ static int fz_wait_pid(int *wstat, int pid) { (void) pid; if (fz_child == 3) ret
 #define puts nqv_prog_puts           /* the program has its own puts(); stdio.h is already in */
 #define main nqv_popup_main
 #include "qmail-popup.c"
+#include "commands.c"                   /* the tree's command reader, included to reach its static line buffer */
 #undef main
 #undef puts
 #undef _exit
@@ -46,6 +47,7 @@ int LLVMFuzzerTestOneInput(const uint8_t *data, size_t size)
   fz_in = data; fz_inlen = size; fz_inoff = 0; fz_chunk = chunks[sel & 3]; fz_endless = 0;
   fz_child = (sel >> 2) & 3;
   ssin.p = 0; ssin.n = sizeof ssinbuf; ssout.p = 0; seenuser = 0;
+  FZ_FRESH(username); FZ_FRESH(cmd);
   if (!setjmp(fz_jb)) nqv_popup_main(3, args); else exited = 1;
   fz_outcome(exited, allowed, 0);
   return 0;
